@@ -24,6 +24,32 @@ package caskettls
 //@   loop 1 invariant forall(k, #i, len(configs), configs[k] == old(configs[k]))
 //@   loop 1 invariant forall(k, 0, #i, configs[k].Enabled == configs[0].Enabled)
 
+//@ unit configs_compatible frames=on props=C06 filter=`caskettls\.(assertConfigsCompatible|assertClientCertsCompatible)$`
+//@ // Two sites that share one SNI name on a listener share one tls.Config (the later one wins in MakeTLSConfig), so the
+//@ // handshake is governed by "the site's" settings only if every setting that C06 names agrees whenever no error is returned.
+//@ extern fmt.Errorf
+//@   ensures result != nil
+//@ define t1() *tls.Config = cfg1.tlsConfig
+//@ define t2() *tls.Config = cfg2.tlsConfig
+//@ func assertClientCertsCompatible
+//@   requires cfg1 != nil && cfg2 != nil && cfg1.tlsConfig != nil && cfg2.tlsConfig != nil
+//@   ensures [same_client_auth_policy] result == nil ==> t1().ClientAuth == t2().ClientAuth
+//@   ensures [same_client_cas_in_order] (result == nil && t1().ClientAuth != 0) ==> (len(cfg1.ClientCerts) == len(cfg2.ClientCerts) && forall(k, 0, len(cfg1.ClientCerts), cfg1.ClientCerts[k] == cfg2.ClientCerts[k]))
+//@   loop 1 invariant 0 <= #i && #i <= len(ccerts1) && len(ccerts1) == len(ccerts2)
+//@   loop 1 invariant forall(k, 0, #i, ccerts1[k] == ccerts2[k])
+//@ func assertConfigsCompatible
+//@   requires cfg1 != nil && cfg2 != nil
+//@   ensures [one_unmade_is_error] ((t1() == nil) != (t2() == nil)) ==> result != nil
+//@   ensures [same_version_range] (result == nil && t1() != nil && t2() != nil) ==> (t1().MinVersion == t2().MinVersion && t1().MaxVersion == t2().MaxVersion)
+//@   ensures [same_cipher_list_in_order] (result == nil && t1() != nil && t2() != nil) ==> (len(t1().CipherSuites) == len(t2().CipherSuites) && forall(k, 0, len(t1().CipherSuites), t1().CipherSuites[k] == t2().CipherSuites[k]) && t1().PreferServerCipherSuites == t2().PreferServerCipherSuites)
+//@   ensures [same_curves_in_order] (result == nil && t1() != nil && t2() != nil) ==> (len(t1().CurvePreferences) == len(t2().CurvePreferences) && forall(k, 0, len(t1().CurvePreferences), t1().CurvePreferences[k] == t2().CurvePreferences[k]))
+//@   ensures [same_alpn_in_order] (result == nil && t1() != nil && t2() != nil) ==> (len(t1().NextProtos) == len(t2().NextProtos) && forall(k, 0, len(t1().NextProtos), t1().NextProtos[k] == t2().NextProtos[k]))
+//@   ensures [same_client_auth_policy] (result == nil && t1() != nil && t2() != nil) ==> t1().ClientAuth == t2().ClientAuth
+//@   ensures [same_client_cas_in_order] (result == nil && t1() != nil && t2() != nil && t1().ClientAuth != 0) ==> (len(cfg1.ClientCerts) == len(cfg2.ClientCerts) && forall(k, 0, len(cfg1.ClientCerts), cfg1.ClientCerts[k] == cfg2.ClientCerts[k]))
+//@   loop 1 invariant 0 <= #i && #i <= len(c1.CipherSuites) && forall(k, 0, #i, c1.CipherSuites[k] == c2.CipherSuites[k])
+//@   loop 2 invariant 0 <= #i && #i <= len(c1.CurvePreferences) && forall(k, 0, #i, c1.CurvePreferences[k] == c2.CurvePreferences[k])
+//@   loop 3 invariant 0 <= #i && #i <= len(c1.NextProtos) && forall(k, 0, #i, c1.NextProtos[k] == c2.NextProtos[k])
+
 //@ unit qualifies frames=on props=C15 filter=`caskettls\.QualifiesForManagedTLS$`
 //@ extern invoke:(github.com/tmpim/casket/caskettls.ConfigHolder).TLSConfig
 //@   pure
